@@ -692,12 +692,13 @@ static Value clusterCase(const Value& cs, int imodel)
 int main(int argc, char** argv)
 {
   if (argc < 3) return 2;
-  std::vector<Value> cases = vj::readNdjson(argv[1]);
+  int first = argc > 3 ? atoi(argv[3]) : 0;
+  // (only the slice of this process is parsed: the case file of the thorough tier is > 100 MB)
+  std::vector<Value> cases = argc > 4 ? vj::readNdjsonSlice(argv[1], first, atoi(argv[4])) : vj::readNdjson(argv[1]);
   FILE* fo = fopen(argv[2], "a");
   if (!fo) return 2;
   setvbuf(fo, nullptr, _IOLBF, 0);
   OUT_FD = fileno(fo);
-  int first = argc > 3 ? atoi(argv[3]) : 0;
   int count = argc > 4 ? atoi(argv[4]) : (int)cases.size();
   if (!freopen("/dev/null", "w", stdout)) return 2;
   std::set_terminate([]() { onCrash(6); });
